@@ -283,7 +283,10 @@ def landscape_shape(model, rep, fn, call, shape_expr):
             assigns.setdefault(n.targets[0].id, []).append(n.value)
     vals = assigns.get(shape_expr.id, []) if isinstance(shape_expr, ast.Name) else [shape_expr]
     # discharge (a): the shape is obtained from the very callee with the same shape-determining arguments
+    from ..match import Matcher as _Mx
+    MLS = _Mx(fn)
     for v in vals:
+        v = MLS.expr(v)  # temporaries (and, in the `inline` view, the body of a private probe helper) expanded
         calls = [x for x in ast.walk(v) if isinstance(x, ast.Call) and isinstance(x.func, ast.Attribute) and x.func.attr == "landscape"]
         if calls and norm_src(v).endswith(".shape"):
             lc = calls[0]
@@ -291,10 +294,13 @@ def landscape_shape(model, rep, fn, call, shape_expr):
             pos = [norm_src(a) for a in lc.args]
             # the mapped call
             mapped = [x for x in calls_in(fn) if isinstance(x.func, ast.Attribute) and x.func.attr in ("iter_mapping_tasks", "construct_mapping_tasks")]
-            mk = {k.arg: norm_src(k.value) for m in mapped for k in m.keywords}
+            mk = {k.arg: norm_src(MLS.expr(k.value)) for m in mapped for k in m.keywords}
+            args = {k: norm_src(MLS.expr(ast.parse(v_, mode="eval").body)) for k, v_ in args.items()}
             same_ms = mk.get("max_shifts") in (args.get("max_shifts"), pos[1] if len(pos) > 1 else None)
             same_up = mk.get("upsample") == args.get("upsample")
-            same_model = mapped and norm_src(mapped[0].args[0]).split(".")[0] == norm_src(lc.func.value)
+            pos = [norm_src(MLS.expr(ast.parse(a_, mode="eval").body)) for a_ in pos]
+            mf = MLS.expr(mapped[0].args[0]) if mapped and mapped[0].args else None
+            same_model = mf is not None and isinstance(mf, ast.Attribute) and mf.attr == "landscape" and norm_src(mf.value) == norm_src(lc.func.value)
             ok = bool(same_ms and same_up and same_model)
             rep.ob("S19", fn.anchor, "the declared landscape shape is the shape model.landscape() itself returns for the same max_shifts and upsample", ok,
                    f"probe: {norm_src(lc)[:90]}; mapped: max_shifts={mk.get('max_shifts')}, upsample={mk.get('upsample')}", node=call, fn=fn,
